@@ -40,8 +40,7 @@ from kafe2.fit import (
     XYParametricModel,
 )
 from kafe2.fit._base import ModelFunctionBase
-from kafe2.fit.histogram.cost import HistCostFunction_Chi2, HistCostFunction_GaussApproximation, HistCostFunction_NegLogLikelihood
-from kafe2.fit.indexed.cost import IndexedCostFunction_Chi2, IndexedCostFunction_GaussApproximation, IndexedCostFunction_NegLogLikelihood
+from kafe2.fit._base.cost import CostFunction_Chi2, CostFunction_GaussApproximation, CostFunction_NegLogLikelihood
 from kafe2.fit.xy.cost import XYCostFunction_Chi2, XYCostFunction_GaussApproximation, XYCostFunction_NegLogLikelihood
 from kafe2.fit.representation.error.common_error_tools import MatrixYamlLoader
 from vlib import dsl, gen
@@ -476,8 +475,9 @@ def custom_source(c):
 # documented options of each class with their non-default value
 COST_CLASSES = {
     "xy": {"chi2": XYCostFunction_Chi2, "nll": XYCostFunction_NegLogLikelihood, "ga": XYCostFunction_GaussApproximation},
-    "indexed": {"chi2": IndexedCostFunction_Chi2, "nll": IndexedCostFunction_NegLogLikelihood, "ga": IndexedCostFunction_GaussApproximation},
-    "hist": {"chi2": HistCostFunction_Chi2, "nll": HistCostFunction_NegLogLikelihood, "ga": HistCostFunction_GaussApproximation},
+    # IndexedFit / HistFit themselves build the base classes from a name (Indexed... / Hist... are empty subclasses of them)
+    "indexed": {"chi2": CostFunction_Chi2, "nll": CostFunction_NegLogLikelihood, "ga": CostFunction_GaussApproximation},
+    "hist": {"chi2": CostFunction_Chi2, "nll": CostFunction_NegLogLikelihood, "ga": CostFunction_GaussApproximation},
 }
 COST_BASE = {
     "chi2_cov": ("chi2", {"errors_to_use": "covariance"}),
@@ -498,8 +498,8 @@ COST_OPTIONS = {
 }
 # where a lost option shows in obs_cost_function
 COST_OPTION_PATHS = {
-    "add_determinant_cost": ("add_determinant_cost", "_add_determinant_cost_ga"),
-    "add_constraint_cost": ("_add_constraint_cost",),
+    "add_determinant_cost": ("add_determinant_cost", "_add_determinant_cost_ga", "arg_names"),  # both switches append arguments
+    "add_constraint_cost": ("_add_constraint_cost", "arg_names"),
     "fallback_on_singular": ("_fail_on_no_matrix", "_fail_on_no_errors"),
     "fast_math": ("fast_math", "function", "arg_names"),
     "axes_to_use": ("arg_names",),
@@ -1712,7 +1712,7 @@ def _classify(h, obs, wit):
     #    (add_determinant_cost, add_constraint_cost, fallback_on_singular, axes_to_use, fast_math where no "_fast" identifier exists)
     #    come back as the defaults.  Holds only if the attribute that differs belongs to an option the case set to its non-default value.
     if kind == "fit" and obs == "cost_function" and f.get("cost_options") and exp != got:
-        attr = path.split("[")[0]
+        attr = path.split("[")[0].split("{")[0]
         if any(attr in COST_OPTION_PATHS[o] for o in f["cost_options"]):
             return "C09/cost-function-options-not-stored"
     # -- dynamic_error_algorithm is not part of the file format
